@@ -31,6 +31,7 @@ class SynScope(object):
         self.kind = kind                    # module | class | function | lambda
         self.owner_is_method = owner_is_method
         self.globals = set()
+        self.global_line = {}               # name -> line of its (first) `global` statement
         self.has_locals = False             # a Load of the identifier `locals` directly in this scope
         self.sid = sid
 
@@ -42,7 +43,10 @@ class SynBinding(object):
     def as_dict(self):
         return {'name': self.name, 'pos': list(self.pos) if self.pos else None, 'construct': self.construct,
                 'scope': self.scope.kind, 'owner_is_method': self.scope.owner_is_method, 'future': self.future,
-                'global_declared': self.name in self.scope.globals}
+                'global_declared': self.name in self.scope.globals and self.construct != 'comp-target',
+                # CPython accepts `import x` *before* `global x` in one function (it refuses `x = 1` there)
+                'global_declared_later': bool(self.pos and self.construct != 'comp-target' and
+                                              self.scope.global_line.get(self.name, 0) > self.pos[0])}
 
 
 def keyword_name_pos(lines, lineno, col, keyword):
@@ -73,6 +77,7 @@ class Syntactic(ast.NodeVisitor):
         self.bindings = []
         self.loads = set()
         self.star_imports = 0
+        self.in_comp_target = False
 
     @property
     def cur(self):
@@ -139,7 +144,17 @@ class Syntactic(ast.NodeVisitor):
             if node.id == 'locals':
                 self.cur.has_locals = True
         elif isinstance(node.ctx, ast.Store):
-            self.bind(node.id, (node.lineno, node.col_offset), 'target')
+            self.bind(node.id, (node.lineno, node.col_offset), 'comp-target' if self.in_comp_target else 'target')
+
+    def visit_comprehension(self, node):
+        # the variable of a comprehension is local to the comprehension: a `global` / `nonlocal` declaration of the
+        # scope the comprehension is written in does not apply to it (a walrus inside one binds outside, as usual)
+        self.visit(node.iter)
+        self.in_comp_target = True
+        self.visit(node.target)
+        self.in_comp_target = False
+        for c in node.ifs:
+            self.visit(c)
 
     def visit_AugAssign(self, node):
         if isinstance(node.target, ast.Name):
@@ -158,6 +173,8 @@ class Syntactic(ast.NodeVisitor):
 
     def visit_Global(self, node):
         self.cur.globals.update(node.names)
+        for n in node.names:
+            self.cur.global_line.setdefault(n, node.lineno)
 
     def visit_ExceptHandler(self, node):
         if node.name:
@@ -207,7 +224,7 @@ def demand(b):
     sc = b.scope
     under = b.name.startswith('_')
     if sc.kind in ('function', 'lambda'):
-        if b.name in sc.globals:
+        if b.name in sc.globals and b.construct != 'comp-target':
             return None             # `global x` in a def: not a local of the function, not at module/class level
         if under:
             return None
@@ -257,7 +274,7 @@ def oracle_file(src, diags):
             judged += 1
             dem = demand(b)
             combos[(b.construct, b.scope.kind, b.name.startswith('_'), b.scope.owner_is_method, b.future,
-                    b.name in b.scope.globals, dem)] += 1
+                    b.name in b.scope.globals and b.construct != 'comp-target', dem)] += 1
             if dem is None:
                 continue
             if b.pos is None:       # no position from syntax: some entry with that code must exist
@@ -530,6 +547,8 @@ FIXED = [
     ('locals in lambda', 'f = lambda a, b: locals()\nprint(f)\n'),
     ('locals in comprehension', 'def f():\n    x = 1\n    return [locals() for i in []]\nprint(f)\n'),
     ('global in function', 'def f():\n    global G, H\n    G = 1\n    import H\n    x = 1\nprint(f)\n'),
+    ('comprehension variable named like a global of the function', 'def f():\n    global gv\n    gv = 1\n    return [0 for gv in []]\nprint(f)\n'),
+    ('import before its global declaration (open finding)', 'def f():\n    import gl\n    global gl\n    gl = 1\nprint(f)\n'),
     ('global read at module', 'def f():\n    global G\n    G = 1\nprint(f, G)\n'),
     ('nonlocal', 'def f():\n    x = 0\n    def g():\n        nonlocal x\n        x = 1\n    return g\nprint(f)\n'),
     ('type parameter bound (E42)', 'def f[T: int]():\n    pass\nprint(f)\n'),
@@ -672,15 +691,12 @@ def real_files(rng, n_std):
 
 # =============================================================================== the check
 
-CLASS_CRASH = 'lint-raises-multiname-locals'
 CLASS_CONSTRUCT = 'construct-not-analysed'
 CLASS_GLOBAL = 'global-declared-outside-function'
+CLASS_IMPORT_BEFORE_GLOBAL = 'import-before-global-declaration'
 
 
 def classify(what, replay):
-    if what == 'lint raised' and replay.get('exception', [None])[0] == 'AttributeError' and \
-            "'MultiName' object has no attribute 'location'" in replay['exception'][1]:
-        return CLASS_CRASH
     if what == 'never-read binding not reported' and (replay.get('binding') or {}).get('construct') in \
             ('match-capture', 'type-alias'):
         return CLASS_CONSTRUCT
@@ -688,6 +704,10 @@ def classify(what, replay):
     if what == 'never-read binding not reported' and b.get('global_declared') and b.get('scope') in ('module', 'class') \
             and b.get('construct') == 'import' and not b.get('entries_for_name'):
         return CLASS_GLOBAL
+    if what.startswith('W-entry the rule does not demand') and b.get('entry') and any(
+            x.get('global_declared_later') and x.get('construct') == 'import' and x.get('pos') == b['entry'][1:]
+            and x.get('scope') in ('function', 'lambda') for x in b.get('bindings', [])):
+        return CLASS_IMPORT_BEFORE_GLOBAL
     return None
 
 
@@ -724,7 +744,7 @@ def _run(check, S, tmp, quick, rng):
     fname = os.path.join(tmp, 'subject.py')
 
     # ---- 3. inputs
-    mods = [('crash witness', CRASH_WITNESS)] + FIXED + matrix_modules()
+    mods = [('locals resolving to a MultiName (raised before f39595c)', CRASH_WITNESS)] + FIXED + matrix_modules()
     bad = [m for m in mods if not valid(m[1])]
     check.oblige('fixed corpus and matrix are valid modules', not bad, '; '.join(repr(m) for m in bad[:3]))
     mods = [m for m in mods if valid(m[1])]
@@ -765,7 +785,7 @@ def _run(check, S, tmp, quick, rng):
             dis_diag.append('%s: driver error %s' % (label, r['driver_error']))
             continue
         n_cmp += 1
-        for h in ('wellKeyed', 'refsScoped', 'noDup', 'noMultiLocals'):
+        for h in ('wellKeyed', 'refsScoped', 'noDup'):
             hyp[h] += 1 if r[h] else 0
         never_read_model += sum(1 for x in r['neverRead'] if x)
         im = impl[i]
@@ -940,7 +960,11 @@ def replay(path):
             _, fails, _ = oracle_file(src, im[1])
             want = rp.get('binding')
             hit = [f for f in fails if want is None or f[1].get('name') == want.get('name')]
-            if hit:
+            known = {k.get('class') for k in common.load_known('C10') if k.get('status') == 'open'}
+            cls = classify(hit[0][0], {'binding': hit[0][1]}) if hit else None
+            if hit and cls in known:
+                print('fails as recorded in KNOWN_FINDINGS (class %s): %s: %s' % (cls, hit[0][0], json.dumps(hit[0][1])[:300]))
+            elif hit:
                 still += 1
                 print('STILL FAILING: %s: %s' % (hit[0][0], json.dumps(hit[0][1])[:400]))
                 print('  lint W-entries: %r' % [d for d in im[1] if d[0].startswith('W')][:10])
